@@ -18,11 +18,11 @@ BUDGET_S = {'quick': 160, 'thorough': 1500}
 PLAIN_OK = b'AUTH PLAIN AHVzZXIAcGFzcw=='       # \0user\0pass
 TOKENS = [
     b'EHLO client.example', b'HELO client.example', b'EHLO', b'ehlo  spaced.example  ', b'EHLO \xff\xfe',
-    b'MAIL FROM:<s@x>', b'MAIL FROM:<s@x> SIZE=5', b'MAIL FROM:<s@x> SIZE=99999', b'MAIL FROM:<s@x> SIZE=abc', b'MAIL FROM:<s@x> BODY=8BITMIME size',
+    b'MAIL FROM:<s@x>', b'MAIL FROM:<s@x> SIZE=5', b'MAIL FROM:<s@x> SIZE=99999', b'MAIL FROM:<s@x> SIZE=100', b'MAIL FROM:<s@x> SIZE=45', b'MAIL FROM:<s@x> SIZE=abc', b'MAIL FROM:<s@x> BODY=8BITMIME size',
     b'MAIL FROM:s@x', b'mail from:  <"a>b"@x> x-k=v', b'MAIL', b'MAIL FROM:<>', b'MAIL FROM:<s\xff@x>', b'MAIL TO:<s@x>',
     b'RCPT TO:<r@y>', b'RCPT TO:<r2@y> NOTIFY=NEVER', b'RCPT TO:r@y', b'RCPT', b'rcpt to:<"q>q"@y>',
     b'DATA', b'DATA now', b'BODY',
-    b'RSET', b'RSET x', b'NOOP', b'NOOP x', b'QUIT', b'QUIT x',
+    b'RSET', b'RSET x', b'NOOP', b'noop', b'NOOP x', b'QUIT', b'QUIT x', b'Data ',
     b'STARTTLS', b'STARTTLS x', PLAIN_OK, b'AUTH', b'AUTH BOGUS', b'VRFY x', b'', b'123 456', b'XPING', b'xping  now ',
 ]
 BODY = b'Subject: hi\r\n\r\nMAIL FROM:<evil@x>\r\n..dot\r\n.\r\n'
@@ -35,6 +35,7 @@ CONFIGS = [
     {'starttls': True, 'auth': True, 'maxsize': None},
     {'starttls': False, 'auth': False, 'maxsize': 100},
     {'starttls': True, 'auth': False, 'maxsize': 20},
+    {'starttls': False, 'auth': False, 'maxsize': 45},      # the size of BODY with its end-of-data line: exactly at the limit is accepted
     {'starttls': False, 'auth': False, 'maxsize': None, 'custom': [b'XPING']},   # the handler object implements XPING
 ]
 
